@@ -19,8 +19,6 @@ OPT_NOTE = ("optimiser model (coq/model/Optimiser.v) replayed bit-for-bit agains
             "MCOptimiser::optimise_state on scripted and real states")
 
 PROPS = {
-    "C05": dict(props_file="props/C05.v", engines=[("opt", dict(focus="C05", quick=250, thorough=6000))],
-                design="DESIGN.md section 4 C05"),
     "C06": dict(props_file="props/C06.v", engines=[("opt", dict(focus="C06", quick=250, thorough=6000))],
                 design="DESIGN.md section 4 C06"),
     "C07": dict(props_file="props/C07.v", engines=[("opt", dict(focus="C07", quick=250, thorough=6000))],
